@@ -67,8 +67,8 @@ pub struct Fault {
 
 #[derive(Clone, Debug, Serialize, Deserialize)]
 pub struct Scenario {
-    /// inert since the defects it steered around were repaired (7eb49b5, cdf790f, 86adc13);
-    /// kept so that recorded replay files still parse
+    /// generated with the trigger of the known finding `wildcard-listener-backlog-per-address`
+    /// avoided: every wildcard listener is connected to under one destination address only
     #[serde(default)]
     pub guarded: bool,
     pub cfg: NetCfg,
@@ -94,6 +94,7 @@ pub struct C13;
 pub const KF_O8: &str = "synreceived-child-never-reaped";
 pub const KF_FW2: &str = "orphan-finwait2-after-lost-rst";
 pub const KF_O7C: &str = "lost-handshake-ack-not-recovered";
+pub const KF_WBL: &str = "wildcard-listener-backlog-per-address";
 
 type ConnFut = Pin<Box<dyn Future<Output = std::io::Result<TcpStream>>>>;
 
@@ -170,45 +171,8 @@ impl<'a> Sim<'a> {
         }
     }
 
-    fn server_ip(&self, from: usize, sel: u8, want_v4: Option<bool>) -> Option<IpAddr> {
-        let a = &self.d.addrs[0];
-        let ip = if (sel as usize) < a.len() {
-            a[sel as usize]
-        } else if from == 0 {
-            if want_v4 == Some(false) {
-                "::1".parse().unwrap()
-            } else {
-                "127.0.0.1".parse().unwrap()
-            }
-        } else {
-            a[0]
-        };
-        Some(ip)
-    }
-
     fn target_of(&self, c: usize) -> Option<SocketAddr> {
-        let spec = &self.sc.conns[c];
-        match spec.to {
-            Some(l) => {
-                let la = self.ls[l].addr;
-                let ip = if la.ip().is_unspecified() {
-                    // any address of the server host of the listener's family
-                    let fam: Vec<IpAddr> = self.d.addrs[0].iter().copied().filter(|a| a.is_ipv4() == la.is_ipv4()).collect();
-                    if spec.from == 0 && (spec.sel as usize) >= fam.len() || fam.is_empty() {
-                        if spec.from != 0 {
-                            return None;
-                        }
-                        if la.is_ipv4() { "127.0.0.1".parse().unwrap() } else { "::1".parse().unwrap() }
-                    } else {
-                        fam[spec.sel as usize % fam.len()]
-                    }
-                } else {
-                    la.ip()
-                };
-                Some(SocketAddr::new(ip, la.port()))
-            }
-            None => self.server_ip(spec.from, spec.sel, None).map(|ip| SocketAddr::new(ip, 9999)),
-        }
+        static_target(self.sc, c)
     }
 
     fn can_reach(&self, from: usize, dst: IpAddr) -> bool {
@@ -733,6 +697,71 @@ impl<'a> Sim<'a> {
     }
 }
 
+/// Destination of connection `c`, a pure function of the scenario.
+fn static_target(sc: &Scenario, c: usize) -> Option<SocketAddr> {
+    let spec = &sc.conns[c];
+    let srv: Vec<IpAddr> = sc.hosts[0].iter().map(|a| parse_ip(a)).collect();
+    match spec.to {
+        Some(l) => {
+            let lip = parse_ip(&sc.listeners[l].ip);
+            let port = sc.listeners[l].port;
+            let ip = if lip.is_unspecified() {
+                // any address of the server host of the listener's family
+                let fam: Vec<IpAddr> = srv.iter().copied().filter(|a| a.is_ipv4() == lip.is_ipv4()).collect();
+                if spec.from == 0 && (spec.sel as usize) >= fam.len() || fam.is_empty() {
+                    if spec.from != 0 {
+                        return None;
+                    }
+                    if lip.is_ipv4() {
+                        "127.0.0.1".parse().unwrap()
+                    } else {
+                        "::1".parse().unwrap()
+                    }
+                } else {
+                    fam[spec.sel as usize % fam.len()]
+                }
+            } else {
+                lip
+            };
+            Some(SocketAddr::new(ip, port))
+        }
+        None => {
+            let ip = if (spec.sel as usize) < srv.len() {
+                srv[spec.sel as usize]
+            } else if spec.from == 0 {
+                "127.0.0.1".parse().unwrap()
+            } else {
+                srv[0]
+            };
+            Some(SocketAddr::new(ip, 9999))
+        }
+    }
+}
+
+/// Known finding: a wildcard listener counts its half-open children per destination address, so
+/// handshakes that are in flight towards *different* addresses of the host do not see each other
+/// in the backlog. Trigger: a wildcard listener that is connected to under two or more addresses.
+fn wildcard_multi_addr(sc: &Scenario) -> bool {
+    (0..sc.listeners.len()).any(|l| {
+        if !parse_ip(&sc.listeners[l].ip).is_unspecified() {
+            return false;
+        }
+        let mut seen: Vec<IpAddr> = Vec::new();
+        for (_, a) in &sc.timeline {
+            if let Act::Connect { c } = a {
+                if sc.conns[*c].to == Some(l) {
+                    if let Some(t) = static_target(sc, *c) {
+                        if !seen.contains(&t.ip()) {
+                            seen.push(t.ip());
+                        }
+                    }
+                }
+            }
+        }
+        seen.len() >= 2
+    })
+}
+
 fn side(client: bool) -> &'static str {
     if client {
         "client"
@@ -1139,8 +1168,35 @@ fn guard_trigger(sc: &Scenario) -> bool {
     sc.timeline.iter().any(|(_, a)| matches!(a, Act::Cancel { c } if sc.conns[*c].to.is_some()))
 }
 
+/// Guarded scenarios: every wildcard listener is reached under one destination address only
+/// (connectors on other hosts, one address selector per listener).
+fn apply_guard(sc: &mut Scenario) {
+    if !sc.guarded {
+        return;
+    }
+    for l in 0..sc.listeners.len() {
+        if !parse_ip(&sc.listeners[l].ip).is_unspecified() {
+            continue;
+        }
+        let mut sel = None;
+        for c in sc.conns.iter_mut().filter(|c| c.to == Some(l)) {
+            if c.from == 0 {
+                c.from = 1;
+            }
+            c.sel = *sel.get_or_insert(c.sel);
+        }
+    }
+    debug_assert!(!wildcard_multi_addr(sc));
+}
+
 fn gen_scenario(rng: &mut Rng, tier: Tier) -> Scenario {
-    let guarded = false;
+    let mut sc = gen_scenario_raw(rng, tier);
+    apply_guard(&mut sc);
+    sc
+}
+
+fn gen_scenario_raw(rng: &mut Rng, tier: Tier) -> Scenario {
+    let guarded = !rng.chance(1, 20);
     let v6 = rng.chance(1, 6);
     let addr = |h: usize, k: usize| if v6 { format!("fd00::{h}:{}", k + 1) } else { format!("10.0.{h}.{}", k + 1) };
     let nclients = rng.usize(1, 2);
@@ -1409,6 +1465,9 @@ impl Property for C13 {
             s.cfg.backlog = 4;
             out.push(s);
         }
+        if sc.guarded {
+            out.retain(|c| !wildcard_multi_addr(c));
+        }
         out
     }
 
@@ -1430,7 +1489,8 @@ impl Property for C13 {
         letters.sort();
         letters.dedup();
         format!(
-            "{}n{} f[{}]{}{}",
+            "{}{}n{} f[{}]{}{}",
+            if wildcard_multi_addr(sc) { "WILDMULTI " } else { "" },
             if guard_trigger(sc) { "X " } else { "" },
             letters.len().min(3),
             sc.faults.iter().map(|f| format!("{:?}", f.kind)).collect::<Vec<_>>().join(","),
@@ -1446,6 +1506,7 @@ impl Property for C13 {
             KF_O8 => v.class == "LeakAbortedHandshake",
             KF_FW2 => v.class == "LeakFinWait2" && sc.faults.iter().any(|f| f.kind == FaultKind::Drop),
             KF_O7C => v.class == "NotAccepted" && sc.faults.iter().any(|f| f.kind == FaultKind::Drop),
+            KF_WBL => v.class == "BacklogExceeded" && wildcard_multi_addr(sc),
             _ => false,
         }
     }
